@@ -37,6 +37,9 @@ DEFAULT_CHARS = {
     13: (SVC_BULB, "0000FE02-0000-1000-8000-0026BB765291", "uint16", ["pr", "pw", "tw"], 7),
     14: (SVC_BULB, "0000FE03-0000-1000-8000-0026BB765291", "uint32", ["pr"], 99),
     15: (SVC_BULB, "0000FE04-0000-1000-8000-0026BB765291", "string", ["pr", "pw"], "s"),  # long values: multi-fragment PDUs
+    23: (SVC_BULB, "0000FE05-0000-1000-8000-0026BB765291", "uint32", ["pr", "pw"], 7),
+    24: (SVC_BULB, "0000FE06-0000-1000-8000-0026BB765291", "float", ["pr", "pw"], 1.5),
+    25: (SVC_BULB, "0000FE07-0000-1000-8000-0026BB765291", "uint64", ["pw"], None),
     20: (SVC_PAIRING, "0000004C-0000-1000-8000-0026BB765291", "tlv8", ["pr", "pw"], None),
     21: (SVC_PAIRING, CH_PAIR_VERIFY, "tlv8", ["pr", "pw"], None),
     22: (SVC_PAIRING, CH_PAIRINGS, "tlv8", ["pr", "pw"], None),
@@ -572,6 +575,8 @@ async def c13_part(ctx) -> None:
     statuses = [0, 1, 2, 3, 4, 5, 6]
     idx = 0
     combos = [c for n in (1, 2) for c in itertools.permutations(list(writable.items()), n)] + [tuple(list(writable.items())[:3])]
+    # the remaining wire formats (32-bit float, 32 / 64-bit integers, UTF-8 text beyond ASCII), one item each
+    combos += [((23, 70000),), ((24, 21.5),), ((25, 2**40 + 3),), ((15, "h\u00e9llo \u706f"),), ((23, 2**32 - 1), (24, -0.25))]
     # a characteristic WITHOUT write permission inside the call (rejected by the library itself, nothing is sent for it): the
     # other items of the same call are still written and reported on their own merits
     read_only = {14: 5, 3: "x"}
